@@ -50,6 +50,7 @@ type Contract struct {
 	HasMod     bool
 	Loops      map[int]*LoopSpec
 	Ghost      []Clause // ghost updates performed by a trusted function: "ghost x = e"
+	AtGhost    map[string][]Clause // site -> ghost assignments executed just before the site
 	Options    map[string]string
 	Assumed    []Clause            // postconditions assumed at call sites but not proved (definitional axioms): "ensures-assumed"
 	Model      []Clause            // extra entry-state expressions reported in counterexample models: "model <expr>"
@@ -225,6 +226,23 @@ func (db *ContractDB) loadFile(path, defaultPkg string) {
 			}
 		case "at":
 			if cur != nil {
+				if g := strings.Index(d.rest, " ghost "); g >= 0 && !strings.Contains(d.rest[:g], " assert ") {
+					// at <site> ghost <var> = <expr>: ghost assignment executed just before the site
+					site := strings.TrimSpace(d.rest[:g])
+					rest := d.rest[g+len(" ghost "):]
+					e := strings.Index(rest, "=")
+					if e < 0 {
+						db.errf("%s: at <site> ghost g = e", where)
+						continue
+					}
+					c := db.clause(strings.TrimSpace(rest[e+1:]), where)
+					c.Label = strings.TrimSpace(rest[:e])
+					if cur.AtGhost == nil {
+						cur.AtGhost = map[string][]Clause{}
+					}
+					cur.AtGhost[site] = append(cur.AtGhost[site], c)
+					continue
+				}
 				k := strings.Index(d.rest, " assert ")
 				if k < 0 {
 					db.errf("%s: at <site> assert <expr>", where)
